@@ -69,6 +69,9 @@ class Engine(NumericMixin, EvalMixin, ExecMixin, CallMixin, BuiltinMixin):
         self.hint_set_type = None
         self.global_axioms = None
         self.finite_side = []
+        self.expand_defs = getattr(self, 'expand_defs', False)
+        self.case_binding = getattr(self, 'case_binding', {})
+        self.case_label = getattr(self, 'case_label', '')
         self.ufuncs_used = set()
         self._axiom_cache = None
         self.init_env = None
@@ -105,8 +108,57 @@ class Engine(NumericMixin, EvalMixin, ExecMixin, CallMixin, BuiltinMixin):
                 st.env[v] = unpack(st, c, t)
             f = self.truth(self.ev1(body, st), st)
             out.append((name, z3.ForAll(bv, f) if bv else f))
+        for name in sorted(self.ufuncs_used):
+            if name in REG.defs and not self.expand_defs:
+                params, body, _ = REG.defs[name]
+                argt, rett = REG.ufuncs[name]
+                st = State()
+                st.spec = True
+                bv = []
+                for p_, t in zip(params, argt):
+                    c = fresh_const(p_, sort_of(t))
+                    bv.append(c)
+                    st.env[p_] = unpack(st, c, t)
+                f = z3.Function(name, *([sort_of(t) for t in argt] + [sort_of(rett)]))
+                self.expand_defs = True
+                try:
+                    rhs = pack(st, self.lift(self.ev1(body, st)), rett)
+                finally:
+                    self.expand_defs = False
+                app = f(*bv)
+                out.append(('def:' + name, z3.ForAll(bv, app == rhs, patterns=[app])))
         self._axiom_cache = (key, out)
         return out
+
+    def lemma_formulas(self, names):
+        out = []
+        for name, vars_, body, src in REG.lemmas:
+            if name not in names:
+                continue
+            st = State()
+            st.spec = True
+            bv = []
+            for v, t in vars_.items():
+                c = fresh_const(v, sort_of(t))
+                bv.append(c)
+                st.env[v] = unpack(st, c, t)
+            f = self.truth(self.ev1(body, st), st)
+            out.append((name, z3.ForAll(bv, f) if bv else f))
+        return out
+
+    def prove_lemma(self, name):
+        """-> (status, seconds): the lemma is proved with no hypotheses at all"""
+        t0 = time.time()
+        self.expand_defs = True
+        try:
+            (nm, f), = self.lemma_formulas([name])
+        finally:
+            self.expand_defs = False
+        s = z3.Solver()
+        s.set('timeout', 60000)
+        s.add(z3.Not(f))
+        r = s.check()
+        return ('discharged' if r == z3.unsat else ('failed' if r == z3.sat else 'unknown')), time.time() - t0
 
     # ------------------------------------------------------------------ function verification
     def build_initial_state(self, fi, spec):
@@ -127,6 +179,9 @@ class Engine(NumericMixin, EvalMixin, ExecMixin, CallMixin, BuiltinMixin):
                 else:
                     st.env[n] = fresh_value(st, t, 'self')
                 continue
+            if n in self.case_binding:
+                st.env[n] = self.lift(self.case_binding[n])
+                continue
             if n not in spec.params:
                 raise SpecError('parameter %s of %s has no declared type' % (n, fi.qual))
             st.env[n] = fresh_value(st, spec.params[n], n)
@@ -134,7 +189,35 @@ class Engine(NumericMixin, EvalMixin, ExecMixin, CallMixin, BuiltinMixin):
         return st
 
     def verify(self, qual):
-        """-> Result.  Generates all obligations of `qual` against its contract and discharges them."""
+        """-> Result.  Generates all obligations of `qual` against its contract and discharges them
+        (once per declared case of constant parameter bindings)."""
+        spec = REG.fns.get(qual)
+        cases = spec.cases if spec is not None else [{}]
+        total = None
+        for ci, case in enumerate(cases):
+            self.case_binding = dict(case)
+            self.case_label = ('case%d:' % ci) if len(cases) > 1 else ''
+            r = self.verify_case(qual)
+            if self.case_label:
+                for o in r.obligations:
+                    o['name'] = self.case_label + o['name']
+                    o['case'] = {k: repr(v) for k, v in case.items()}
+            if total is None:
+                total = r
+            else:
+                total.obligations += r.obligations
+                total.time += r.time
+                total.paths += r.paths
+                order = ['error', 'contract-out-of-date', 'out-of-subset', 'failed', 'undecided', 'proved']
+                if order.index(r.status) < order.index(total.status):
+                    total.status, total.reason = r.status, r.reason
+                total.inlined = sorted(set(total.inlined) | set(r.inlined))
+                total.contracts_used = sorted(set(total.contracts_used) | set(r.contracts_used))
+                total.externals_used = sorted(set(total.externals_used) | set(r.externals_used))
+        self.case_binding, self.case_label = {}, ''
+        return total
+
+    def verify_case(self, qual):
         t0 = time.time()
         self.reset()
         res = Result(qual)
@@ -178,6 +261,8 @@ class Engine(NumericMixin, EvalMixin, ExecMixin, CallMixin, BuiltinMixin):
 
     def generate(self, fi, spec, res):
         st = self.build_initial_state(fi, spec)
+        for _, lf in self.lemma_formulas(spec.lemmas):
+            st.pc.append(lf)
         ss = st.fork()
         ss.spec = True
         self.eval_lets(spec, ss)
@@ -457,6 +542,7 @@ class Engine(NumericMixin, EvalMixin, ExecMixin, CallMixin, BuiltinMixin):
             S.FINITE['K'] = K
             try:
                 sub = Engine(self.index, self.timeout_ms, self.feas_budget_ms)
+                sub.case_binding = dict(self.case_binding)
                 sub.reset()
                 sub.current_fn = fi.qual
                 sub.verifying = fi.qual
